@@ -75,12 +75,12 @@ def kOf (col : Nat) : Nat :=
   match col with | 0 => 1 | 1 => Generated.K1 | 2 => Generated.K2 | _ => Generated.K3
 
 /-- `Compiler::compile_with_composer` + `preprocess`: `none`-like errors as `PErr.compile` -/
-def compile (srs : SRS) (label : List Nat) (c : Composer) : Except PErr PKey :=
+def compile (srs : SRS) (srsLen : Nat) (label : List Nat) (c : Composer) : Except PErr PKey :=
   let constraints := c.gates.size
   let nTrim := nextPow2 (constraints + Generated.CIRCUIT_SIZE_PADDING)
-  match srs.trim nTrim with
+  match truncateLen srsLen (nTrim + Generated.ADDED_BLINDING_DEGREE) with
   | .error e => .error (.compile e)
-  | .ok ck =>
+  | .ok ckLen =>
     let size := nextPow2 constraints
     match Domain.new? (size - 1) with
     | none => .error (.compile .degreeIsZero)
@@ -94,7 +94,7 @@ def compile (srs : SRS) (label : List Nat) (c : Composer) : Except PErr PKey :=
       let sigma : Array Poly := (Array.range 4).map fun colI =>
         Poly.ofCoeffs (d.ifft ((sm.getD colI #[]).toList.map fun (cc, i) => fmul (kOf cc) (roots.getD i 0)))
       let k0 : PKey := { n := d.size, constraints := constraints, label := label, sel := sel, sigma := sigma,
-                         vk := default, piIndexes := [], x := srs.x, g := srs.g, ckLen := ck.length, lay := c }
+                         vk := default, piIndexes := [], x := srs.x, g := srs.g, ckLen := ckLen, lay := c }
       -- selector commitments use `unwrap_or_default` (identity on error); sigma commitments propagate errors
       let cs (i : Nat) : G1 := match commitT k0 (sel.getD i []) with | .ok p => p | .error _ => .inf
       match commit4 k0 (sigma.getD 0 []) (sigma.getD 1 []) (sigma.getD 2 []) (sigma.getD 3 []) with
